@@ -828,7 +828,8 @@ def run_unit(ctx: C.Ctx):
             # and headers: CPython ignores them all, so the oracle is unchanged; the text is kept for the IR correspondence
             # every other noisy program additionally with the `wide` classes: per-block indentation widths (or tabs only),
             # optional blanks between tokens, CRLF, no final newline, non-ASCII comment text
-            nz = progen.Noise(nrng, p_line=0.45 if "corpus" in f_ else 0.3, wide=nstats["noisy-programs"] % 2 == 1)
+            nz = progen.Noise(nrng, p_line=0.45 if "corpus" in f_ else 0.3, wide=nstats["noisy-programs"] % 2 == 1,
+                              p_space=0.5 if "corpus" in f_ else 0.25)
             p["_src"] = progen.render(p, noise=nz)
             if not progen.same_python(p["_src"], progen.render(p)):
                 raise RuntimeError("harness bug: layout noise changed the program CPython reads:\n" + p["_src"])
